@@ -162,6 +162,99 @@ def analyse(repo, R, taken, findings):
     return f, ex, info
 
 
+def dtype_set(repo, f, e, param, depth=0):
+    """Which dtypes does the boolean expression `e` admit for `param.dtype`?  -> 'signed' (a subset of {int64, float64} or of the
+    signed/floating kinds), 'unsigned' (admits an unsigned integer type), or None (no dtype test in `e`)."""
+    if isinstance(e, ast.BoolOp) and isinstance(e.op, ast.And):
+        outs = [dtype_set(repo, f, v, param, depth) for v in e.values]
+        outs = [o for o in outs if o is not None]
+        if not outs:
+            return None
+        return "signed" if "signed" in outs else "unsigned"  # a conjunction is as narrow as its narrowest member
+    if isinstance(e, ast.BoolOp) and isinstance(e.op, ast.Or):
+        outs = [dtype_set(repo, f, v, param, depth) for v in e.values]
+        if any(o is None for o in outs):
+            return None if all(o is None for o in outs) else "unsigned"
+        return "unsigned" if "unsigned" in outs else "signed"
+    txt = ast.unparse(e)
+    if f"{param}.dtype" not in txt and "dtype" not in txt:
+        return None
+    if isinstance(e, ast.Compare) and len(e.ops) == 1 and ast.unparse(e.left) == f"{param}.dtype":
+        rhs = e.comparators[0]
+        if isinstance(e.ops[0], ast.In) and isinstance(rhs, (ast.List, ast.Tuple, ast.Set)):
+            names = {ast.unparse(x) for x in rhs.elts}
+        elif isinstance(e.ops[0], ast.Eq):
+            names = {ast.unparse(rhs)}
+        else:
+            raise AnalysisError("CHARGE", f"dtype test `{txt[:60]}` not recognised", f.where(e))
+        ok = {"int", "float", "np.int64", "np.float64", "np.int32", "np.float32", "np.int_", "np.float_", "np.double", "np.longdouble"}
+        if names <= ok:
+            return "signed"
+        if any(n.startswith(("np.uint", "np.ubyte", "np.ushort")) or n in ("np.integer", "np.number", "bool") for n in names):
+            return "unsigned"
+        raise AnalysisError("CHARGE", f"dtype test `{txt[:60]}` not recognised", f.where(e))
+    if isinstance(e, ast.Call) and ast.unparse(e.func) in ("np.issubdtype", "numpy.issubdtype") and len(e.args) == 2:
+        kind = ast.unparse(e.args[1])
+        if kind in ("np.signedinteger", "np.floating", "np.inexact", "float", "int", "np.float64", "np.int64"):
+            return "signed"
+        if kind in ("np.integer", "np.number", "np.unsignedinteger", "np.generic", "np.bool_"):
+            return "unsigned"
+        raise AnalysisError("CHARGE", f"dtype kind `{kind}` not recognised", f.where(e))
+    if isinstance(e, ast.Compare) and ".dtype.kind" in txt:
+        kinds = "".join(x.value for x in ast.walk(e) if isinstance(x, ast.Constant) and isinstance(x.value, str))
+        return "unsigned" if ("u" in kinds or "b" in kinds) else "signed"
+    if isinstance(e, ast.Call) and depth < 2:
+        g = repo.resolve_name(f.module, ast.unparse(e.func), f)
+        if hasattr(g, "node") and len(e.args) == 1 and ast.unparse(e.args[0]) in (f"{param}.dtype", param):
+            rets = [n for n in ast.walk(g.node) if isinstance(n, ast.Return) and n.value is not None]
+            if len(rets) == 1:
+                inner_param = g.params[0]
+                # evaluate the helper's return expression with its parameter standing for the dtype
+                class Sub(ast.NodeTransformer):
+                    def visit_Name(self, n):
+                        if n.id == inner_param:
+                            return ast.copy_location(ast.parse(f"{param}.dtype" if ast.unparse(e.args[0]).endswith(".dtype") else param, mode="eval").body, n)
+                        return n
+                import copy
+                return dtype_set(repo, g, Sub().visit(copy.deepcopy(rets[0].value)), param, depth + 1)
+    raise AnalysisError("CHARGE", f"dtype test `{txt[:60]}` not recognised", f.where(e))
+
+
+def charge_dtype_rule(repo, R, f):
+    """`-points_charge` is computed in the charges' own dtype: an unsigned integer array wraps around (Z = 8 becomes 248).  The
+    argument validation must therefore not admit unsigned dtypes (or the charges must be converted to float before the negation)."""
+    fn = f.node
+    pc = [p for p in f.params if "charge" in p]
+    if len(pc) != 1:
+        raise AnalysisError("CHARGE", "charge parameter of the point-charge kernel not found", f.where())
+    pc = pc[0]
+    guards = [st for st in fn.body if isinstance(st, ast.If) and st.body and isinstance(st.body[-1], ast.Raise) and not st.orelse
+              and pc in {n.id for n in ast.walk(st.test) if isinstance(n, ast.Name)}]
+    verdicts = []
+    for st in guards:
+        t = st.test
+        inner = t.operand if isinstance(t, ast.UnaryOp) and isinstance(t.op, ast.Not) else None
+        if inner is None:
+            continue
+        v = dtype_set(repo, f, inner, pc)
+        if v is not None:
+            verdicts.append((v, st))
+    casts = [n for n in ast.walk(fn) if isinstance(n, ast.Call) and isinstance(n.func, ast.Attribute) and n.func.attr == "astype"
+             and ast.unparse(n.func.value) == pc and n.args and ast.unparse(n.args[0]) in ("float", "np.float64")]
+    if casts:
+        R.ok("CHARGE", f.site, f"{pc} converted to float before use")
+        return
+    if not verdicts:
+        R.fail("CHARGE", f.site, f"dtype validation of {pc}", f"`{pc}` is used as `-{pc}` in its own dtype but no validation restricts that dtype: an unsigned "
+               "integer array wraps around instead of changing sign", where=f.where(), expected=f"{pc}.dtype in [int, float]")
+        return
+    for v, st in verdicts:
+        R.check(v == "signed", "CHARGE", f.site, f"dtype validation of {pc}: {ast.unparse(st.test)[:70]}",
+                f"the validation admits unsigned integer charges, but the result is formed as `-{pc}` in the charges' own dtype: unsigned values wrap "
+                "around (e.g. uint8 8 -> 248) and the integrals come out with the wrong sign and scale", where=f.where(st),
+                expected=f"{pc}.dtype in [int, float] (signed)", found=ast.unparse(st.test)[:120])
+
+
 def run(repo, R):
     R.rule("INPUTS", "the public wrapper uses its parameters as given: no path replaces one by a filtered/re-ordered/scaled/defaulted copy")
     R.rule("DISPATCH", "the wrapper assembles Cartesian, spherical, mixed and transformed results through the four assembly routes, same keywords on each")
@@ -206,6 +299,7 @@ def run(repo, R):
         report(R, f, findings)
     R.floor("Vv", total, 22, "one-electron recursion stores over both orientations")
     boys_rule(repo, R)
+    charge_dtype_rule(repo, R, repo.func(PC))
     from .c09 import check_nuc_wrapper
     g = repo.func("gbasis.integrals.nuclear_electron_attraction.nuclear_electron_attraction_integral")
     R.note_function(g.qualname)
